@@ -61,7 +61,7 @@ def cmpGt (strict : Nat) (a b : Int) : Bool := if strict = 1 then decide (a > b)
 inductive Step (σ : Type) where
   | next (s : σ)    -- fall through to the next `recv_line`
   | stop (s : σ)    -- `break` / `return` out of the loop
-deriving Repr
+deriving Repr, DecidableEq
 
 /-- how a header loop ended -/
 inductive LoopEnd where
@@ -215,7 +215,7 @@ structure ClientState where
   /-- `continued_value`: the key whose value continuation lines extend -/
   cont : Option Bytes := none
   payloadLength : Option Nat := none
-deriving Repr
+deriving Repr, DecidableEq
 
 def clientLine (st : ClientState) (line : Bytes) : Step ClientState :=
   if line.head? = some 9 then
